@@ -29,7 +29,9 @@
    Checked by TLC     : Agree     - automaton reports = declarative reports (same order)
                         FinalInit - the automaton is in its initial state after the last End
    Generator          : expressions are grown one segment / one embedding per step; `tc` is the
-                        vector handed to the harness: expression text + predicted reports. *)
+                        vector handed to the harness: expression text + predicted reports +
+                        the name of the embedding (comp-*: the expression also holds a semantic
+                        error of another kind, which must not remove a report). *)
 EXTENDS Naturals, Sequences, FiniteSets, TLC, Json
 
 CONSTANTS MaxLen,    \* segments of chain 1 (after the root variable)
@@ -228,6 +230,8 @@ Cmp(l, rr) == N("cmp", "", "==", <<l, rr>>)
 Logic(op, l, rr) == N("logic", "", op, <<l, rr>>)
 Paren(e) == N("paren", "", "", <<e>>)
 Contains(a, b) == Call("contains", "contains", <<a, b>>)
+Trusted2(a, b) == N("prop", b, b, <<N("var", a, a, <<>>)>>)
+Trusted3(a, b, c) == N("prop", c, c, <<Trusted2(a, b)>>)
 
 \* spelling kind of a segment: plain | DOT | lit | LIT | none (not a name)
 Kind(g) == IF g.t \in {"var", "dot"} THEN (IF g.r = g.n THEN "plain" ELSE "DOT")
@@ -283,8 +287,27 @@ Embed(m, c1, e2) ==
        \* a logical operator directly under another one (expr_sema.go types these with narrowing)
     [] m = "andor" -> Logic("||", Paren(Logic("&&", e1, X)), X)
     [] m = "orand" -> Logic("&&", Paren(Logic("||", X, e1)), X)
+    [] m = "andor-r" -> Logic("||", Paren(Logic("&&", X, e1)), X)
+    [] m = "orand-l" -> Logic("&&", Paren(Logic("||", e1, X)), X)
+    [] m = "nor-l" -> Logic("||", N("not", "", "!", <<Paren(Logic("||", e1, X))>>), X)
+    [] m = "nor-r" -> Logic("||", N("not", "", "!", <<Paren(Logic("||", X, e1))>>), X)
+    [] m = "nand-l" -> Logic("&&", N("not", "", "!", <<Paren(Logic("&&", e1, X))>>), X)
+    [] m = "nand-r" -> Logic("&&", N("not", "", "!", <<Paren(Logic("&&", X, e1))>>), X)
        \* an object filter on a trusted chain just before e (the pending-filter flag must not leak)
     [] m = "fothen" -> Logic("||", N("filter", "", "", <<X>>), e1)
+       \* companion defects: the same expression also holds one semantic error of another kind
+       \* (the error adds its own diagnostic, it must never remove a report); none of them reads anything
+    [] m = "comp-format" -> Call("format", "format", <<N("str", "", "{0}", <<>>), e1, N("str", "", "unused", <<>>)>>)
+    [] m = "comp-arity" -> Call("toJSON", "tojson", <<e1, N("str", "", "x", <<>>)>>)
+    [] m = "comp-cmp" -> N("cmp", "", "<", <<e1, N("kw", "", "true", <<>>)>>)
+    [] m = "comp-steps" -> Logic("&&", e1, Trusted3("steps", "nope", "outputs"))
+    [] m = "comp-steps-first" -> Logic("||", Trusted3("steps", "nope", "outputs"), e1)
+    [] m = "comp-prop" -> Logic("||", e1, Trusted2("github", "nope"))
+    [] m = "comp-prop-first" -> Logic("&&", Trusted2("github", "nope"), e1)
+    [] m = "comp-strderef" -> Logic("||", e1, Trusted3("github", "ref", "nope"))
+    [] m = "comp-undefvar" -> Logic("&&", e1, Trusted2("jobs", "x"))
+    [] m = "comp-specialfn" -> Logic("&&", e1, Call("always", "always", <<>>))
+    [] m = "comp-undeffn" -> Logic("||", e1, Call("nosuchfn", "nosuchfn", <<>>))
     [] m = "paren" -> Paren(e1)
     [] m = "pmid" -> ApplySeg(c1[Len(c1)], Paren(Build(c1, Len(c1) - 1, e2)), e2)
     [] m = "notpar" -> N("not", "", "!", <<Paren(Cmp(e1, X))>>)
@@ -301,7 +324,7 @@ ExprOf(c1, c2, m) == Embed(m, c1, Build(c2, Len(c2), MatrixI))
 VARIABLES c1, c2, emb, tc
 vars == <<c1, c2, emb, tc>>
 
-Vector(a, b, m) == LET e == ExprOf(a, b, m) IN ToJson([e |-> Render(e), r |-> Reports(e)])
+Vector(a, b, m) == LET e == ExprOf(a, b, m) IN ToJson([e |-> Render(e), r |-> Reports(e), m |-> m])
 
 Init == /\ c1 \in {<<g>> : g \in RootSegs}
         /\ c2 = C2Default
